@@ -177,24 +177,89 @@ def castToBasicOk : Enc → Bool
   | .Str | .I64 | .F64 | .NullableStr | .OptStr | .NullableI64 | .NullableF64 | .Val | .Null => true
   | _ => false
 
-/-- `Column::new` as called by `deserialize`: with an empty codec it needs `data[0]` and a basic type for it. -/
-def deserColumn (c : CapColumn) : Except Fault Column :=
-  let col : Column := { name := c.name, len := c.len, range := deserRange c.range,
-                        codec := c.codec.map deserOp, data := c.data.map deserSection }
+/-- `EncodingType::is_nullable`. -/
+def Enc.isNullable : Enc → Bool
+  | .NullableStr | .NullableI64 | .NullableU8 | .NullableU16 | .NullableU32 | .NullableU64 | .NullableF64 => true
+  | _ => false
+
+/-- `EncodingType::nullable` (panics on the types that have no nullable version). -/
+def Enc.nullable : Enc → Except Fault Enc
+  | .Str | .NullableStr => .ok .NullableStr
+  | .I64 | .NullableI64 => .ok .NullableI64
+  | .U8 | .NullableU8 => .ok .NullableU8
+  | .U16 | .NullableU16 => .ok .NullableU16
+  | .U32 | .NullableU32 => .ok .NullableU32
+  | .U64 | .NullableU64 => .ok .NullableU64
+  | .F64 | .NullableF64 => .ok .NullableF64
+  | .Val => .ok .Val
+  | .OptStr => .ok .OptStr
+  | _ => .error .unreachable
+
+/-- One iteration of the loop in `CodecOp::output_type`; the `Vec` used as a stack is a list with its top at the head.
+    `type_stack.pop()` without `unwrap` tolerates an empty stack. -/
+def outputTypeStep (secTypes : List Enc) (stack : List Enc) : CodecOp → Except Fault (List Enc)
+  | .nullable =>
+      match stack.drop 1 with
+      | [] => .error .unwrap
+      | t :: rest => do let n ← t.nullable; pure (n :: rest)
+  | .add .. | .delta _ | .toI64 _ =>
+      match stack with
+      | [] => .error .unwrap
+      | t :: rest => .ok ((if t.isNullable then Enc.NullableI64 else Enc.I64) :: rest)
+  | .dictLookup _ =>
+      match stack.drop 2 with
+      | [] => .error .unwrap
+      | t :: rest => .ok ((if t.isNullable then Enc.NullableStr else Enc.Str) :: rest)
+  | .lz4 t _ => .ok (t :: stack)
+  | .pco t _ _ => .ok (t :: stack)
+  | .unpackStrings => .ok (.Str :: stack)
+  | .unhexpackStrings .. => .ok (.Str :: stack)
+  | .pushDataSection i =>
+      match secTypes[i]? with
+      | some t => .ok (t :: stack)
+      | none => .error .index
+  | .unknown => .error .unreachable
+
+def outputTypeLoop (secTypes : List Enc) : List CodecOp → List Enc → Except Fault (List Enc)
+  | [], stack => .ok stack
+  | op :: ops, stack => do let st ← outputTypeStep secTypes stack op; outputTypeLoop secTypes ops st
+
+/-- `CodecOp::output_type` as far as it can panic: `section_types[0]`, the pops, `section_types[i]`, `nullable()`,
+    `cast_to_basic()` of the final stack top.  Returns the final encoding type. -/
+def outputType (ops : List CodecOp) (secTypes : List Enc) : Except Fault Enc :=
+  match secTypes with
+  | [] => .error .index
+  | t0 :: _ => do
+      let st ← outputTypeLoop secTypes ops [t0]
+      match st with
+      | [] => .error .unwrap
+      | t :: _ => if castToBasicOk t then .ok t else .error .unreachable
+
+/-- `Column::new`: with an empty codec it needs `data[0]` and a basic type for it (`Codec::identity`); otherwise
+    `Codec::new` runs `output_type` over the ops and the section types.  The stored fields are kept as given. -/
+def columnNew (col : Column) : Except Fault Column :=
   if col.codec.isEmpty then
     match col.data with
     | [] => .error .index                                   -- data[0]
     | d :: _ => if castToBasicOk d.encodingType then .ok col else .error .unreachable
-  else .ok col
+  else do
+    let _ ← outputType col.codec (col.data.map (·.encodingType))
+    pure col
+
+/-- The argument list `deserialize` hands to `Column::new`. -/
+def rawColumn (c : CapColumn) : Column :=
+  { name := c.name, len := c.len, range := deserRange c.range, codec := c.codec.map deserOp, data := c.data.map deserSection }
+
+def deserColumn (c : CapColumn) : Except Fault Column := columnNew (rawColumn c)
 
 /-- `PartitionSegment::deserialize` (up to capnp packing). -/
 def deserSegment (cols : List CapColumn) : Except Fault (List Column) := cols.mapM deserColumn
 
-/-- Columns that `serialize` accepts and `Column::new` can rebuild: no `Unknown` op, only storable encodings in the
-    ops, and with an empty codec a first section whose encoding has a basic type. -/
+/-- Columns that `serialize` accepts and that exist at all: no `Unknown` op and only storable encodings in the ops, and
+    `Column::new` does not panic on the stored fields (every column value of the running program was produced by
+    `Column::new`, `Column::null` or `Codec::new` via `with_lz4` / `with_pco`, all of which run the same `output_type`). -/
 def Storable (c : Column) : Prop :=
-  (∀ op ∈ c.codec, (serOp op).isOk = true) ∧
-  (c.codec = [] → ∃ d rest, c.data = d :: rest ∧ castToBasicOk d.encodingType = true)
+  (∀ op ∈ c.codec, (serOp op).isOk = true) ∧ columnNew c = .ok c
 
 /-! ### log segments -/
 
@@ -246,6 +311,17 @@ structure CapWal where
   data : List CapTableSegment
   deriving DecidableEq, Repr, Inhabited
 
+def AnyVal.tag : AnyVal → AnyTag
+  | .int _ => .Int | .float _ => .Float | .str _ => .Str | .null => .Null
+
+def ColumnData.tag : ColumnData → ColTag
+  | .empty => .Empty | .dense _ => .Dense | .sparse _ => .Sparse | .i64 _ => .I64 | .sparseI64 _ => .SparseI64
+  | .string _ => .String | .mixed _ => .Mixed
+
+def CapColData.tag : CapColData → CapColTag
+  | .f64 _ => .F64 | .sparseF64 .. => .SparseF64 | .i64 _ => .I64 | .string _ => .String | .empty => .Empty
+  | .sparseI64 .. => .SparseI64 | .mixed _ => .Mixed
+
 def serColData : ColumnData → CapColData
   | .empty => .empty
   | .dense bits => .f64 bits
@@ -286,6 +362,18 @@ def serWal (w : WalSegment) : CapWal :=
 /-- `WalSegment::deserialize` (up to capnp packing). -/
 def deserWal (c : CapWal) : WalSegment :=
   { id := c.id, tables := mapOfList (c.data.map deserTable) }
+
+/-- `EventBuffer::serialize_builder` / `deserialize_reader` on their own (the bare `TableSegmentList` message that
+    clients send and `EventBuffer::serialize` / `deserialize` use). -/
+def serEventBuffer (tables : List (Name × TableBuffer)) : List CapTableSegment := tables.map fun (n, t) => serTable n t
+
+def deserEventBuffer (data : List CapTableSegment) : List (Name × TableBuffer) := mapOfList (data.map deserTable)
+
+/-- Wire column data whose sparse forms carry as many indices as values (what every writer produces). -/
+def CapColData.Balanced : CapColData → Prop
+  | .sparseF64 is vs => is.length = vs.length
+  | .sparseI64 is vs => is.length = vs.length
+  | _ => True
 
 def keysNodup {β} (m : List (Name × β)) : Prop := (m.map (·.1)).Nodup
 
